@@ -62,6 +62,8 @@ def run(ctx):
     from . import c09
     c09.r8_cache_per_environment(ctx, rule="C04.R12")  # cache()/chunk(): one replay buffer per environment, never one shared through Environments.filter
     r13_member_numbering(ctx)
+    r14_text_pickles(ctx)
+    r15_picklable_state(ctx, fam)
 
 
 DRAWS = {"choice", "choicew", "random", "randoms", "randint", "randints", "shuffle", "gauss", "gausses"}
@@ -1141,6 +1143,76 @@ def r13_member_numbering(ctx, rule="C04.R13"):
     ctx.floor(rule, "ordering operations over archive member names", n, 1)
 
 
+def r14_text_pickles(ctx, rule="C04.R14"):
+    """'after pickling or save()/from_save()': a __getstate__ that answers with repr text which __setstate__ reads back with literal_eval round-trips only
+    states made of python literals -- inf, nan and objects (Categorical labels) have a repr that is not one."""
+    ctx.rule(rule, "text pickles are guarded: no class answers __getstate__ with a bare repr(...) that its __setstate__ feeds to literal_eval; the shared helper emits the text form only "
+                   "after a type-directed check of the whole state (finite floats, ints, strs, bools, None, lists/tuples/dicts of those) and the reader accepts both forms")
+    n = 0
+    for c in ctx.model.classes:
+        if c.rel.startswith("coba/tests"):
+            continue
+        gs, ss = c.methods.get("__getstate__"), c.methods.get("__setstate__")
+        if gs is None or ss is None:
+            continue
+        evals = [k for k in ast.walk(ss) if isinstance(k, ast.Call) and (call_name(k) or "").split(".")[-1] in ("literal_eval", "eval", "_of_literal")]
+        if not evals:
+            continue
+        n += 1
+        ctx.touch(c.rel, f"{c.name}.__getstate__")
+        bare = [r for r in ast.walk(gs) if isinstance(r, ast.Return) and isinstance(r.value, ast.Call) and call_name(r.value) in ("repr", "str")]
+        ctx.ob(rule, c.rel, f"{c.name}.__getstate__", (bare or [gs])[0], "the state is not handed out as unchecked repr text", not bare)
+        raw_eval = [k for k in evals if (call_name(k) or "").split(".")[-1] in ("literal_eval", "eval")]
+        ctx.ob(rule, c.rel, f"{c.name}.__setstate__", (raw_eval or [ss])[0], "the reader accepts a state that is not text (it does not literal_eval unconditionally)", not raw_eval)
+    ctx.floor(rule, "classes pickling through text", n, 3)
+    PR = "coba/primitives.py"
+    if ctx.model.has_func(PR, "_as_literal"):
+        h = ctx.fn(PR, "_as_literal")
+        rets = [r for r in walk_shallow(h) if isinstance(r, ast.Return)]
+        ok = bool(rets) and all(isinstance(r.value, ast.IfExp) and isinstance(r.value.body, ast.Call) and call_name(r.value.body) == "repr" for r in rets)
+        chk = [f for f in ast.walk(h) if isinstance(f, ast.FunctionDef) and f is not h]
+        txt = unparse(chk[0]) if chk else ""
+        ok = ok and "inf" in txt and ("x == x" in txt or "isfinite" in txt or "isnan" in txt) and "return False" in txt
+        ctx.ob(rule, PR, "_as_literal", h, "the text form is chosen only when a check of the whole state finds nothing but finite plain values (default: not literal)", ok, stmt="literal check")
+        o = ctx.fn(PR, "_of_literal")
+        ok2 = any(isinstance(r, ast.Return) and isinstance(r.value, ast.IfExp) and "str" in unparse(r.value.test) for r in walk_shallow(o))
+        ctx.ob(rule, PR, "_of_literal", o, "text states are parsed, other states are taken as they are", ok2, stmt="reader accepts both forms")
+
+
+def r15_picklable_state(ctx, fam, rule="C04.R15"):
+    """'after pickling': an environment is pickled with everything its filters hold; a lambda, a function defined inside a method, or a generator cannot be."""
+    ctx.rule(rule, "picklable pipeline state: a source/filter class of the environment pipelines that stores a lambda, a locally defined function or a container built around one "
+                   "(defaultdict(factory)) in an attribute defines its own pickling (__getstate__/__setstate__ or __reduce__) -- otherwise the environment cannot be sent to a worker")
+    CONTAINERS = ("defaultdict", "collections.defaultdict", "partial", "functools.partial", "dict", "list", "tuple")
+    n = 0
+    for key, c in sorted(fam.items()):
+        for name, fn in sorted(c.methods.items()):
+            local_fns = {x.name for x in ast.walk(fn) if isinstance(x, ast.FunctionDef) and x is not fn}
+            for st in walk_shallow(fn):
+                if not (isinstance(st, ast.Assign) and any(is_self_attr(t) for t in st.targets)):
+                    continue
+                v = st.value
+                tops = [v] + (list(v.args) + [k.value for k in v.keywords] if isinstance(v, ast.Call) and call_name(v) in CONTAINERS else [])
+                closures = [t for t in tops if isinstance(t, ast.Lambda) or (isinstance(t, ast.Name) and t.id in local_fns)]
+                maker = isinstance(v, ast.Call) and isinstance(v.func, ast.Name) and v.func.id in local_fns   # e.g. make_noiser(...) returning a lambda
+                if not closures and not maker:
+                    continue
+                n += 1
+                hooks = [h for h in ("__getstate__", "__setstate__", "__reduce__", "__reduce_ex__") if h in c.methods]
+                ok = "__reduce__" in hooks or "__reduce_ex__" in hooks or {"__getstate__", "__setstate__"} <= set(hooks)
+                ctx.ob(rule, c.rel, f"{c.qual}.{name}", st, "the class stores a closure, so it defines how it is pickled", ok, detail={"hooks": hooks})
+    ctx.floor(rule, "closure-valued attributes in pipeline classes", n, 2)
+
+
+def _drop_methods(tree, cname, members):
+    from ..mutate import find_def
+    cls = find_def(tree, cname)
+    keep = [st for st in cls.body if not (isinstance(st, ast.FunctionDef) and st.name in members)]
+    if len(keep) == len(cls.body):
+        raise M.TargetMissing(f"{cname}: {members}")
+    cls.body = keep
+
+
 def _bounded_memo(tree):
     from ..mutate import find_def
     fn = find_def(tree, "Grounded.GroundedFeedback.__call__")
@@ -1148,6 +1220,9 @@ def _bounded_memo(tree):
 
 
 CONTROLS = [
+    ("Densify without pickling hooks", "coba/environments/filters.py", lambda tree: _drop_methods(tree, "Densify", ("__getstate__", "__setstate__")), "C04.R15"),
+    ("rewards pickle as unchecked repr text", "coba/primitives.py", M.chain(M.replace_expr("DiscreteReward.__getstate__", "_as_literal((self._state, self._default))", "repr((self._state, self._default))"),
+        M.replace_expr("DiscreteReward.__setstate__", "_of_literal(args)", "literal_eval(args)")), "C04.R14"),
     ("next member index from the lexicographic maximum", "coba/environments/serialized.py", M.replace_stmt("ObjectsToZipMember.__init__", lambda st: isinstance(st, ast.For),
         "members = [n for n in ZipFile(self._zip).namelist() if n.isdigit()]\nif members: self._start = int(max(members)) + 1"), "C04.R13"),
     ("one Cache shared through Environments.filter", "coba/environments/core.py", M.replace_expr("Environments.cache", "Environments([Pipes.join(env, Cache(25)) for env in self._envs])", "self.filter(Cache(25))"), "C04.R12"),
